@@ -10,6 +10,7 @@ import (
 	"fmt"
 	"math/rand"
 	"sort"
+	"sync/atomic"
 	"unicode/utf8"
 )
 
@@ -162,3 +163,7 @@ func Abbrev(s string, n int) string {
 	}
 	return s[:cut] + fmt.Sprintf("...(+%d bytes)", len(s)-cut)
 }
+
+// WaitingForChild is raised by a property while it waits for a child process: the worker is then idle without being blocked,
+// and its idle watchdog stands back.
+var WaitingForChild atomic.Int32
